@@ -252,6 +252,15 @@ func genCmd(r *simrt.RNG, name string, taken map[string]bool, depth int, reqBias
 			c.Subs = append(c.Subs, genCmd(r, w, copyTaken(taken), depth+1, reqBias))
 		}
 	}
+	if len(c.Subs) >= 2 && r.Intn(3) == 0 {
+		// a pure grouping command: no function of its own, and several leaves that are not wired up yet
+		c.Fn = false
+		for i := range c.Subs {
+			if len(c.Subs[i].Subs) == 0 && r.Intn(3) != 0 {
+				c.Subs[i].Fn = false
+			}
+		}
+	}
 	if len(c.Subs) > 0 && r.Intn(4) == 0 {
 		c.LateOpts = genOpts(r, copyTaken(taken), 1+r.Intn(2), reqBias)
 	}
